@@ -245,6 +245,10 @@ func replayFrag(fsch *fragSched, version int) string {
 			} else {
 				in = []byte(fmt.Sprintf("?OTR|%08x|%08x,%05d,%05d,%s,", their, our, s.K, 3, piece("M", s.K)))
 			}
+		case "errormsg":
+			in = []byte("?OTR Error: something went wrong")
+		case "query":
+			in = []byte("?OTRv23?")
 		case "stranger":
 			in = line(foreign, 2, 3, "x")
 		case "garbage":
